@@ -610,6 +610,13 @@ example : ∀ r tg, Lookup (cfg .pfx false) T2 ⟨"a.b.foo.com:8080".toList, fal
   longer_suffix_beats_shorter_port (cfg .pfx false) T2 _ rfl ".foo.com".toList "*.*".toList "8080".toList (by decide)
     (by decide) (by decide) (by decide) (by unfold HostMatches; decide) (by decide)
 
+-- recorded finding (second): the sort compares the keys as written, the match (and the specification) the keys with
+-- the connection's default port removed. On a plain connection `*:80` is matched as `*`, so it matches `a:443`
+-- next to `*:443`, and it is sorted in front (equal host parts, port "80" above "443"). The theorems above speak
+-- about the keys as written (`hostPart`), so they do not cover the pair; the specification does.
+example : (matched (cfg .pfx false) [("*:443".toList, [rt "*:443" "/" "long"]), ("*:80".toList, [rt "*:80" "/" "short"])]
+    ⟨"a:443".toList, false, "/".toList⟩).map String.ofList = ["*:80", "*:443"] := by decide
+
 /-- the excluded point of `longer_suffix_beats_shorter_partial`: `[ab].foo.com:8080` (for `net.SplitHostPort`
 a bracketed host without a port: error, so the whole key is reversed, port first) against `*.foo.com:8080`
 (host part `*.foo.com`). The host glob is a parameter; here: everything matches. -/
